@@ -474,6 +474,18 @@ func mkIte(c, a, b *Term) *Term {
 		if a.isFalse() && b.isTrue() {
 			return mkNot(c)
 		}
+		if b.isFalse() {
+			return mkAnd(c, a)
+		}
+		if a.isTrue() {
+			return mkOr(c, b)
+		}
+		if b.isTrue() {
+			return mkOr(mkNot(c), a)
+		}
+		if a.isFalse() {
+			return mkAnd(mkNot(c), b)
+		}
 	}
 	return mkOp("ite", a.sort, c, a, b)
 }
